@@ -211,7 +211,8 @@ Proof.
       rewrite G1. simpl. exact Hs3.
     - inversion E4; subst. exact Hs3. }
   match goal with |- context [scan_configs P ?S ?F ?N] => destruct (scan_configs P S F N) as [s5|] eqn:ES end; [|discriminate].
-  intros H; inversion H; subst. apply scan_configs_lk in ES. destruct ES as (E1 & _). rewrite E1. exact Hs4.
+  intros H; inversion H; subst. apply scan_configs_lk in ES. destruct ES as (E1 & _).
+  match goal with |- context [if ?B then _ else _] => destruct B end; [change (v_leaderId s5 = 0)|]; rewrite E1; exact Hs4.
 Qed.
 
 (* ---------------------------------------------------------------- one step of a server *)
